@@ -385,6 +385,7 @@ func main() {
 	genCallSites(o, all)
 	genPipelines(o, pkgs["callbacks"], all)
 	genClone(o, pkgs["."])
+	genCloneInit(o, pkgs["."])
 	genSessions(o, all)
 	genMisc(o, pkgs, all)
 	genLockSections(o, pkgs["."], *repo)
@@ -735,6 +736,26 @@ func genClone(o *out, root map[string]*ast.File) {
 	fmt.Fprintf(&b, "def sessionSharesStatement : Bool := %s\n", lbool(strings.Contains(sTxt, "Statement: db.Statement,")))
 	fmt.Fprintf(&b, "def sessionNewDBKeepsClone1 : Bool := %s\n", lbool(strings.Contains(sTxt, "clone: 1,") && strings.Contains(sTxt, "if !config.NewDB { tx.clone = 2 }")))
 	o.write("CloneFacts", b.String())
+}
+
+// genCloneInit (C16): the top-level statements of Statement.clone() after the literal that mention
+// newStmt.attrs / newStmt.assigns, as (field, whitespace-normalised source).  No classification is
+// made here: the model recognises only the exact plain copy `newStmt.f = stmt.f`.
+func genCloneInit(o *out, root map[string]*ast.File) {
+	var b strings.Builder
+	var stmts [][2]string
+	if cl := findFunc(root, "Statement.clone"); cl != nil && len(cl.Body.List) > 0 {
+		for _, st := range cl.Body.List[1:] {
+			txt := strings.Join(strings.Fields(src(st)), " ")
+			for _, f := range []string{"attrs", "assigns"} {
+				if strings.Contains(txt, "newStmt."+f) {
+					stmts = append(stmts, [2]string{f, txt})
+				}
+			}
+		}
+	}
+	fmt.Fprintf(&b, "/-- statement.go `clone()`: statements after the literal mentioning newStmt.attrs / newStmt.assigns (field, source) -/\ndef cloneInitStmts : List (String × String) := %s\n\n", pairs(stmts))
+	o.write("CloneInit", b.String())
 }
 
 func pkgOf(file string) string {
